@@ -28,6 +28,7 @@ CONSTANTS
   Configs,        \* allowlist configurations explored by model checking (set of sequences of entries)
   PlainAccepted,  \* FALSE: add_allowed_address as coded today (finding CF18); TRUE: as documented / repaired
   MaxFaults, MaxGets, MaxBumps,   \* bounds of the exhaustive scopes
+  MaxQ,           \* requests a client keeps outstanding on one connection (bound of the exhaustive scopes)
   Reuse,          \* a slot whose connection is gone can be connected again (FALSE in the exhaustive scopes)
   ExitOnError,    \* design mutation (witness configs only): a connection/accept error ends the accept loop
   Serial,         \* design mutation (witness configs only): connections are served inline, one at a time
@@ -62,9 +63,9 @@ ContainsCode(net, a) ==
   LET size == Pow2(Len(a) - net.n)
       network == (ToInt(net.a) \div size) * size
       broadcast == network + size - 1
-  IN network <= ToInt(a) /\ ToInt(a) <= broadcast
-(* the documented meaning: the first n bits agree *)
-ContainsLaw(net, a) == \A i \in 1..net.n : net.a[i] = a[i]
+  IN Len(net.a) = Len(a) /\ network <= ToInt(a) /\ ToInt(a) <= broadcast
+(* the documented meaning: same address family and the first n bits agree *)
+ContainsLaw(net, a) == Len(net.a) = Len(a) /\ \A i \in 1..net.n : net.a[i] = a[i]
 
 (* an entry as written by the user: [k |-> "plain", a] | [k |-> "cidr", a, n] | [k |-> "bad"] *)
 Documented(e) == e.k \in {"plain", "cidr"}
@@ -110,7 +111,9 @@ GetItem(path, lo) == [t |-> "get", path |-> path, lo |-> lo]
 PartItem(path, lo) == [t |-> "partial", path |-> path, lo |-> lo]
 GarbItem == [t |-> "garbage", path |-> "", lo |-> 0]
 LastIsPartial(cn) == IF cn.q = <<>> THEN FALSE ELSE cn.q[Len(cn.q)].t = "partial"
-CanSend(cn) == cn.st = "open" /\ ~cn.eof /\ ~LastIsPartial(cn)
+HasGarbage(cn) == \E i \in DOMAIN cn.q : cn.q[i].t = "garbage"
+(* nothing is sent behind garbage (the server closes there) or into a half-sent request *)
+CanSend(cn) == cn.st = "open" /\ ~cn.eof /\ ~LastIsPartial(cn) /\ ~HasGarbage(cn) /\ Len(cn.q) < MaxQ
 
 (* the server's view of a connection once the accept loop took it: the allowlist decision is made here, once *)
 AcceptedRec(cn) == IF cn.acc THEN cn ELSE [cn EXCEPT !.acc = TRUE, !.allowed = (cn.st = "open" /\ Allowed(allow, cn.peer))]
@@ -167,11 +170,11 @@ HalfClose(c) ==              \* shutdown(SHUT_WR)
   /\ nf' = nf + 1 /\ Quiet /\ Keep /\ UNCHANGED <<alive, ctr, busy, ng, nb>>
 Reset(c) ==                  \* RST: SO_LINGER 0 close, or close with unread data
   /\ Running /\ conn[c].st = "open" /\ nf < MaxFaults
-  /\ conn' = [conn EXCEPT ![c].st = "gone", ![c].clean = FALSE]
+  /\ conn' = [conn EXCEPT ![c].st = "gone", ![c].clean = FALSE, ![c].q = <<>>, ![c].eof = FALSE]
   /\ nf' = nf + 1 /\ Quiet /\ Keep /\ UNCHANGED <<alive, ctr, busy, ng, nb>>
 Close(c) ==                  \* orderly close by the client
   /\ Running /\ conn[c].st = "open"
-  /\ conn' = [conn EXCEPT ![c].st = "gone", ![c].clean = FALSE]
+  /\ conn' = [conn EXCEPT ![c].st = "gone", ![c].clean = FALSE, ![c].q = <<>>, ![c].eof = FALSE]
   /\ Quiet /\ Keep /\ UNCHANGED <<alive, ctr, busy, nf, ng, nb>>
 BumpBy(n) ==                 \* the application increments its counter
   /\ Running /\ ctr' = ctr + n
@@ -179,9 +182,10 @@ BumpBy(n) ==                 \* the application increments its counter
 Bump == nb < MaxBumps /\ nb' = nb + 1 /\ Running /\ ctr' = ctr + 1 /\ Quiet /\ Keep /\ UNCHANGED <<alive, conn, busy, nf, ng>>
 
 (* server side *)
+AcceptEnabled(c) == Running /\ alive /\ conn[c].st \in {"open", "gone"} /\ ~conn[c].acc /\ (Serial => busy = 0)
+ServeEnabled(c) == Running /\ TaskCanStep(conn[c]) /\ (Serial => busy = c)
 Accept(c) ==                 \* one iteration of serve_tcp's loop + check_tcp_allowed + spawn
-  /\ Running /\ alive /\ conn[c].st \in {"open", "gone"} /\ ~conn[c].acc
-  /\ Serial => busy = 0
+  /\ AcceptEnabled(c)
   /\ conn' = [conn EXCEPT ![c] = AcceptedRec(@)]
   /\ busy' = IF Serial THEN c ELSE busy
   /\ Quiet /\ Keep /\ UNCHANGED <<alive, ctr, nf, ng, nb>>
@@ -204,21 +208,20 @@ Answer(c) ==                 \* handle_http_request on the request at the head
 DropOnEof(c) ==              \* http1 half_close = false: EOF seen while a response is outstanding, or idle / mid-request
   LET cn == conn[c] IN
   /\ cn.st = "open" /\ cn.eof
-  /\ conn' = [conn EXCEPT ![c].sdead = TRUE]
+  /\ conn' = [conn EXCEPT ![c].sdead = TRUE, ![c].q = <<>>]
   /\ Quiet /\ TaskEnds(c, cn.q # <<>>)
 BadRequest(c) ==             \* hyper: parse error -> 400 Bad Request, connection closed, task returns Err
   LET cn == conn[c] IN
   /\ cn.st = "open" /\ HeadT(cn) = "garbage"
   /\ last' = [c |-> c, peer |-> cn.peer, path |-> "", clean |-> FALSE, lo |-> 0, r |-> R400]
-  /\ conn' = [conn EXCEPT ![c].sdead = TRUE]
+  /\ conn' = [conn EXCEPT ![c].sdead = TRUE, ![c].q = <<>>]
   /\ TaskEnds(c, TRUE)
 PeerGone(c) ==               \* the client reset / closed: read or write fails, the task ends
   /\ conn[c].st = "gone"
   /\ conn' = [conn EXCEPT ![c].sdead = TRUE]
   /\ Quiet /\ TaskEnds(c, TRUE)
 Serve(c) ==
-  /\ Running /\ TaskCanStep(conn[c])
-  /\ Serial => busy = c
+  /\ ServeEnabled(c)
   /\ Answer(c) \/ DropOnEof(c) \/ BadRequest(c) \/ PeerGone(c)
   /\ Keep /\ UNCHANGED <<ctr, nf, ng, nb>>
 
@@ -282,7 +285,7 @@ InvContainsAgree ==
 (* faults on other connections never stop the listener: a pending well-formed request can always make progress *)
 InvListening == Running => alive
 InvServable ==
-  \A c \in Conns : PendingClean(c) => IF conn[c].acc THEN ENABLED Serve(c) ELSE ENABLED Accept(c)
+  \A c \in Conns : PendingClean(c) => IF conn[c].acc THEN ServeEnabled(c) ELSE AcceptEnabled(c)     \* = ENABLED Serve(c) / ENABLED Accept(c)
 (* ... and is eventually answered (or withdrawn by its own client) *)
 LiveServed == \A c \in Conns : PendingClean(c) ~> ~PendingClean(c)
 =============================================================================
